@@ -7,6 +7,15 @@ use std::time::{Duration, Instant};
 
 pub const CLI_BIN: &str = "/verif/target/cli/release/fastpasta";
 
+/// The CLI binary under test: `$VERIF_TARGET/cli/release/fastpasta` when a separate target root is in use
+/// (trials of seeded changes run beside a long check without swapping its binaries).
+pub fn cli_bin() -> String {
+    match std::env::var("VERIF_TARGET") {
+        Ok(t) if !t.is_empty() => format!("{t}/cli/release/fastpasta"),
+        _ => CLI_BIN.to_string(),
+    }
+}
+
 #[derive(Clone, Debug)]
 pub struct RunResult {
     pub status: Option<i32>,
@@ -37,7 +46,10 @@ pub struct Scratch {
 impl Scratch {
     pub fn new(tag: &str) -> Self {
         let n = COUNTER.fetch_add(1, Ordering::Relaxed);
-        let base = std::env::var("VERIF_SCRATCH").unwrap_or_else(|_| "/verif/target/scratch".to_string());
+        let base = std::env::var("VERIF_SCRATCH").unwrap_or_else(|_| match std::env::var("VERIF_TARGET") {
+            Ok(t) if !t.is_empty() => format!("{t}/scratch"),
+            _ => "/verif/target/scratch".to_string(),
+        });
         let path = PathBuf::from(format!("{}/{}-{}-{}", base, tag, std::process::id(), n));
         std::fs::create_dir_all(&path).expect("scratch dir");
         Scratch { path }
@@ -107,7 +119,7 @@ impl<'a> Run<'a> {
 
     pub fn run(self) -> RunResult {
         let start = Instant::now();
-        let mut cmd = Command::new(CLI_BIN);
+        let mut cmd = Command::new(cli_bin());
         cmd.args(&self.args)
             .stdin(if self.stdin.is_some() { Stdio::piped() } else { Stdio::null() })
             .stdout(Stdio::piped())
